@@ -120,6 +120,7 @@ class Interp:
         self.config = dict(config)
         self.order_attr = order_attr
         self.approx = set()
+        self.localclasses = {}
         self.depth = 0
         self.assigned_attrs = self._assigned_attrs()
 
@@ -297,6 +298,7 @@ class Interp:
             return [(p.bind(s.name, OPAQUE), None)]
         if isinstance(s, ast.ClassDef):
             meths = frozenset(x.name for x in s.body if isinstance(x, ast.FunctionDef))
+            self.localclasses[s.name] = s
             return [(p.bind(s.name, ('localcls', s.name, meths)), None)]
         if isinstance(s, ast.Delete):
             outs = [(p, None)]
@@ -487,7 +489,7 @@ class Interp:
 
     def store_attr(self, name, v, p):
         if v[0] == 'obj' and v[1] == 'new':
-            v = ('obj', 'new:' + name, v[2])
+            v = ('obj', 'new:' + name) + tuple(v[2:])
         if v[0] == 'enum':
             v = ('enum', v[1], 'this')
         if name == 'testsRun':
@@ -931,14 +933,18 @@ class Interp:
                 for c in ('sys.stdout', 'sys.stderr'):
                     if q.st.get(c) == obj:
                         chan = c
-                return [(('cap', chan or 'stale:' + obj[1]), q.event('getvalue', obj[1], chan))]
+                outs = [(('cap', chan or 'stale:' + obj[1]), q.event('getvalue', obj[1], chan))]
+                why = self._method_raises(obj, name)
+                if why:
+                    outs.append((('!raise',) + why, q))
+                return outs
             if name == 'truncate':
                 return [(OPAQUE, q.event(name, obj[1]).set('dirty:' + obj[1], False))]
             if name == 'seek':
                 return [(OPAQUE, q.event(name, obj[1]))]
             return [(OPAQUE, q)]
         if k == 'localcls':
-            return [(('obj', 'new', fv[2]), q)]
+            return [(('obj', 'new', fv[2], fv[1]), q)]
         # ---- by canonical name
         canon = self.canon(d) if d else None
         if d and d.split('.')[0] in q.env and q.env[d.split('.')[0]] != OPAQUE:
@@ -960,6 +966,34 @@ class Interp:
             if call.func.attr == 'countTestCases':
                 return [(('count',), q)]
         return [(OPAQUE, q)]
+
+    TOLERANT = ('replace', 'ignore', 'backslashreplace', 'surrogateescape', 'xmlcharrefreplace',
+                'namereplace', 'surrogatepass')
+
+    def _method_raises(self, obj, name):
+        """catalogued raise source inside a method of a locally defined class: a
+        ``bytes.decode`` whose error handler is not a tolerant constant raises
+        UnicodeDecodeError on arbitrary bytes (what a test wrote to the stream's buffer)"""
+        cls = self.localclasses.get(obj[3]) if len(obj) > 3 else None
+        if cls is None:
+            return None
+        for f in cls.body:
+            if isinstance(f, ast.FunctionDef) and f.name == name:
+                for c in ast.walk(f):
+                    if isinstance(c, ast.Call) and isinstance(c.func, ast.Attribute) and \
+                            c.func.attr == 'decode':
+                        err = None
+                        if len(c.args) > 1:
+                            err = c.args[1]
+                        for k in c.keywords:
+                            if k.arg == 'errors':
+                                err = k.value
+                        if not (isinstance(err, ast.Constant) and err.value in self.TOLERANT):
+                            return ('UnicodeDecodeError', '%s.%s(): %s decodes the captured bytes '
+                                    'with a strict (or unknown) error handler; a test that writes '
+                                    'undecodable bytes to sys.stdout.buffer makes it raise'
+                                    % (cls.name, name, norm(c)))
+        return None
 
     def _base_call(self, name, q):
         q = q.event('base', name)
